@@ -161,7 +161,7 @@ fn run(prop: &str, tier: Tier, seed: u64) -> i32 {
         }
         let mut reproduced = false;
         for r in &kf.repro {
-            let p = Path::new(VERIF_DIR).join(r);
+            let p = verif_dir().join(r);
             // only the replays that belong to this property
             let rf: Option<ReplayFile> = std::fs::read(&p).ok().and_then(|b| serde_json::from_slice(&b).ok());
             match rf {
